@@ -8,6 +8,12 @@ def fact_body_Batch : List String := [
 def fact_body_Every : List String := [
     "{ v1 := time.Now() v2 := v1.Truncate(a1).Add(a1).Sub(v1) v3 := time.NewTimer(v2) return func() Msg { v4 := <-v3.C v3.Stop() for len(v3.C) > 0 { <-v3.C } return a2(v4) } }"]
 
+def fact_body_Exec : List String := [
+    "{ return func() Msg { return execMsg{cmd: a1, a2: a2} } }"]
+
+def fact_body_ExecProcess : List String := [
+    "{ return Exec(wrapExecCommand(a1), a2) }"]
+
 def fact_body_Program_Kill : List String := [
     "{ p.shutdown(true) }"]
 
@@ -80,6 +86,15 @@ def fact_body_detectReportFocus : List String := [
 def fact_body_newRenderer : List String := [
     "{ if a3 < 1 { a3 = defaultFPS } else if a3 > maxFPS { a3 = maxFPS } v1 := &standardRenderer{ a1: a1, mtx: &sync.Mutex{}, done: make(chan struct{}), framerate: time.Second / time.Duration(a3), a2: a2, queuedMessageLines: []string{}, } if v1.useANSICompressor { v1.out = &compressor.Writer{Forward: a1} } return v1 }"]
 
+def fact_body_osExecCommand_SetStderr : List String := [
+    "{ if c.Stderr == nil { c.Stderr = a1 } }"]
+
+def fact_body_osExecCommand_SetStdin : List String := [
+    "{ if c.Stdin == nil { c.Stdin = a1 } }"]
+
+def fact_body_osExecCommand_SetStdout : List String := [
+    "{ if c.Stdout == nil { c.Stdout = a1 } }"]
+
 def fact_body_standardRenderer_halt : List String := [
     "{ r.listenMtx.Lock() defer r.listenMtx.Unlock() if !r.listening { return } r.done <- struct{}{} r.listening = false }"]
 
@@ -97,6 +112,9 @@ def fact_body_standardRenderer_start : List String := [
 
 def fact_body_standardRenderer_write : List String := [
     "{ r.mtx.Lock() defer r.mtx.Unlock() r.buf.Reset() if a1 == \"\" { a1 = \" \" } _, _ = r.buf.WriteString(a1) }"]
+
+def fact_body_wrapExecCommand : List String := [
+    "{ return &osExecCommand{Cmd: a1} }"]
 
 def fact_bufsize : List String := [
     "256"]
